@@ -101,8 +101,8 @@ def run(ctx):
                                                        campaign.kind_of(v) in ("result:result-bytes", "result:result-status", "result:result-pos", "out-value", "out-status", "out-pos", "in-pos"))))
         cvs = campaign.validate_cam(camp)
         campaign.judge_cam(ctx, camp, cvs, ["C09."])
-        if not quick:
-            # the repository's own tests, recorded under the hook and replayed through the pushdown machine
+        if True:
+            # the repository's own tests (core, compiler, gallery formats on their sample files), recorded under the hook and replayed through the pushdown machine
             from .. import repotests
             repotests.run(ctx, ["C09."])
         nt = 0
